@@ -38,4 +38,18 @@ def queries(tier):
     for L in ([0] if quick else [0, 1]):
         qs.append(Q('dsround_len%d' % L, 'P', 'h_dsround.c', {'LEN': L}, 5 * L + 8, 'parse_data_string(format_data_string(d, mask, flags)) == (d, mask classes) for %d symbolic bytes' % L,
                     'len(data) == %d, all byte values, all masks, with/without mask, both flag values' % L))
+    # hex dump: (name, SIZE, ALIGN, FLAGS, ADDR, START, WIDTH)
+    hd = [('a64_s1_al0_ascii', 1, 0, 0x802, 0, 0, 16), ('a64_s3_al14_ascii', 3, 14, 0x802, 0, 0, 16), ('auto_s2_al0', 2, 0, 0x0, 1, 0, 2), ('auto_s0', 0, 0, 0x2, 1, 0, 2)]
+    if not quick:
+        hd += [('a64_s5_al13_skipsep', 5, 13, 0x842, 0, 0, 16), ('a64_s16_al0', 16, 0, 0x800, 0, 0, 16), ('a64_s17_al15_ascii', 17, 15, 0x802, 0, 0, 16),
+               ('auto_s4_al14_w4', 4, 14, 0x2, 1, 0xF0, 4), ('auto_s2_al15_w8', 2, 15, 0x2, 1, 0xFFF0, 8), ('auto_s2_al15_w16', 2, 15, 0x2, 1, 0xFFFFFFF0, 16),
+               ('auto_s48_al0_collapse', 48, 0, 0x22, 1, 0, 2), ('o16_s20_al7_skipsep', 20, 7, 0x240, 1, 0x100, 4)]
+    for nm, size, al, fl, addr, st, w in hd:
+        nl = (al + size + 15) // 16
+        qs.append(Q('hexdump_' + nm, 'X', 'h_hexdump.c', {'SIZE': size, 'ALIGN': al, 'FLAGS': fl, 'ADDR': addr, 'START': st, 'WIDTH': w, 'KF_WRAP_EXCL': 1}, max(18, size + 3), unwindset=PRINTF_LOOPS,
+                    mem_gb=12, per_harness_block=0,
+                    desc='format_data text of %d symbolic bytes at %s, flags 0x%x, all 1-3-way iovec partitions, decoded by an independent dump parser' % (size, 'symbolic 64-bit address with low nibble %d' % al if addr == 0 else 'address 0x%x' % (st + al), fl),
+                    bounds='size %d, start & 15 == %d, flags 0x%x, %s' % (size, al, fl, 'start address symbolic over all 64-bit values whose line-rounded range stays below 2^64' if addr == 0 else 'start address 0x%x' % (st + al))))
+    qs.append(Q('hexdump_KF_top_of_address_space', 'X', 'h_hexdump.c', {'SIZE': 3, 'ALIGN': 14, 'FLAGS': 0x802, 'ADDR': 0, 'START': 0, 'WIDTH': 16, 'KF_WRAP_ONLY': 1}, 18, unwindset=PRINTF_LOOPS, mem_gb=12,
+                desc='probe: dump whose last line ends at or wraps past 2^64', bounds='size 3, low nibble 14', expect_fail='format_data prints nothing or throws when the dumped range (rounded to lines) reaches 2^64'))
     return qs
